@@ -122,6 +122,19 @@ Theorem no_waiter_timeout : forall o s,
 Proof. exact operation_remove_last_cancels. Qed.
 Print Assumptions no_waiter_timeout.
 
+(* worker_attended: over every run whose calls are numbered freshly, either some event reported one of the
+   scheduler's impossible-state panics ([panicked]: an OPanic among the observations of some event -- the monitor
+   reports that as a violation by itself), or in the reached state every registered worker has its removal
+   time-out armed or is named by a parked Synchronize call.  (The escape is needed for one assertion only:
+   "parking a worker without last invocation" in the blocking loop of Synchronize leaves a just-disarmed
+   worker behind; excluding it needs an invariant about workers parked on the undrain wake-up, not proved.) *)
+Theorem worker_attended : forall cfg t0 evs, fresh_calls [] evs ->
+  let s := fst (run (init cfg t0) evs) in
+  panicked (snd (run (init cfg t0) evs)) \/
+  forall w, worker_exists s w = true ->
+    k_cleanup (get_worker s w) <> None \/ exists c p, aget Nat.eqb c (s_calls s) = Some p /\ sync_of p = Some w.
+Proof. exact worker_attended. Qed.
+Print Assumptions worker_attended.
+
 (* NOT PROVED YET (see docs/areas/Sched-proofs.md):
-   worker_attended : every worker has k_cleanup <> None or a Synchronize call naming it;
    the queue / empty-invocation parts of Spec.c06_dump; c06_final (gc_complete). *)
